@@ -4,7 +4,9 @@
    Model: Ledger/Import.v (status ready | importing cursor | removing; owner function restricted to
    ready wallets; [import_batch] = one commit of asyncImport over the heights (cursor, min(cursor+B, best)],
    parametric in the batch size B; ErrImportingContinuable / ErrChainReorg = retry,
-   ErrUnexpectedCreditNotFound = the worker drops the task; cursor pull-back in [xrollback]);
+   ErrUnexpectedCreditNotFound = the worker drops the task (as found; repaired: retry); repaired: a batch is
+   refused and retried unless the node's block at the batch's upper height is the handler's synced block of
+   that height ([node_on_synced], switch f_import_tipcheck); cursor pull-back in [xrollback]);
    histories: Ledger/Remove.v [xrun]; specification: Ledger/Spec.v. *)
 From Coq Require Import List ZArith NArith Bool.
 Import ListNotations.
@@ -30,9 +32,10 @@ Require Import MW.Ledger.Proofs3 MW.Ledger.Proofs4 MW.Ledger.Proofs5 MW.Ledger.I
    - until then it cannot be selected.
    _partial: the node's chain is c during the whole rescan and the wallet database holds no other
    wallet's credits.  SUBSUMED (for the repaired code) by C07_import_equals_live / C07_import_live
-   below, which let the chain move: blocks connected and disconnected on the node, announcements
-   processed (extensions, reorganisations with the cursor pull-back, roll-backs to an old block)
-   between batches, batches that read a chain the handler has not been told about yet.  Other wallets
+   below, which let the chain move: blocks connected and disconnected on the node (also blocks it had
+   left before), announcements processed (extensions, reorganisations with the cursor pull-back,
+   roll-backs to an old block) between batches, batches that find the node on a chain the handler has
+   not been told about yet.  Other wallets
    in the same database remain covered by the correspondence check (harness/cmd/c07) only. *)
 Theorem C07_import_equals_live_partial : forall fx p B c w own st0 j,
   wf_chain c -> 0 < B -> importing p c w own 0 st0 ->
@@ -180,7 +183,7 @@ Definition hist_order : list xevent :=
 Theorem C07_rescan_then_reorg_refused_refuted :
   let s := xrun {| f_removable := true; f_rollback := true; f_import_retry := true; f_start_reorg := true;
                    f_rollback_order := false;
-                   f_import_tipcheck := true; f_removable_debit := true; f_ff_check := true |} p0 1000 20000 [g0] hist_order in
+                   f_import_tipcheck := true; f_removable_debit := true; f_ff_check := true; f_keystore_undo := true |} p0 1000 20000 [g0] hist_order in
   status_of (xs_st s) 2 = Some WReady /\
   x_brecs (xs_st s) = [{| br_h := 2; br_bid := 2; br_txs := [4; 3]%N |}] /\
   fst (tip (x_w (xs_st s))) = 2 /\ chain_height (xs_node s) = 3 /\
@@ -211,34 +214,28 @@ Proof. vm_compute. split; reflexivity. Qed.
      XProcess b            the handler processes the (queued) announcement of b NOW — against whatever
                            chain the node has at that moment: extension, reorganisation (cursor pulled
                            back), roll-back to an old block of its own chain, or refusal,
-     XBatch w              the worker runs one rescan batch — reading the node's chain as it is NOW,
+     XBatch w              the worker runs one rescan batch — finding the node's chain as it is NOW,
                            which may be ahead of, or on another branch than, the handler's chain.
    [xwf p g U w B cap s0 h] (Ledger/ImportProofs2.v, [ev_ok]) is the environment assumption, event by event:
-     - blocks come from a universe U in which a block id names one block; the node's chain stays
-       well formed ([wf_chain], C01's E1/E4); the genesis is never announced;
-     - NO BOUNCE: the node does not connect a block that the handler still has as its synced block of
-       that height ([matched] = false), i.e. the node does not come back to a block it disconnected
-       before the handler was told about the disconnection.  [C07_fresh_history_ok]: this holds in
-       particular when the node never connects a block twice.  Without it the statement is FALSE of
-       the model (and, the model following asyncImport, presumably of the code): C07_import_bounce_refuted.
+     blocks come from a universe U in which a block id names one block; the node's chain stays well formed
+     ([wf_chain], C01's E1/E4); the genesis is never announced.  Nothing else: in particular the node MAY
+     connect again a block it disconnected earlier while the handler still has it as synced (it leaves a
+     branch and comes back before the handler is told).  For the code as found that assumption ("no bounce")
+     was needed and the statement was false without it: C07_import_bounce_refuted below.
    Restriction kept from the partial theorem: the database holds no other wallet's keys.
 
    [sinv] is the invariant (a): the handler is not crashed, the node's chain is well formed, and for the
-   chain c the handler follows ([xinv p g U w keys c n st]): the store's synced chain is c; the import
-   task is alive ([x_dead] empty); every credit and every spent mark is covered by a block record
-   (so that the record-driven Rollback is [rollback_credits]); with top = the cursor (importing) or
-   the height of c (ready), EITHER
-     clean   the credits are exactly those of the first top+1 blocks of c for the wallet's addresses
-             ([importing] of the partial theorem, generalised), every block record names a block of c;
-     OR doomed — this is what holds "in between", after a batch has read a chain the handler had not
-             been told about: for some j < top the store rolled back to j is exact (what is above j
-             is what the batch read on the other branch), and the handler's block of height j+1 is no
-             longer on the node's chain: the handler cannot extend its chain; the first announcement it
-             accepts is a reorganisation to height <= j (or a roll-back on its own chain), which
-             deletes everything above j and pulls the cursor back: clean again.
-   A batch answers IOk (committed) or IRetry (nothing changed: previous transaction not found, block
-   record of another block at that height, spend of a coin it does not have); never IAbandon
-   (C07_batch_never_abandons). *)
+   chain c the handler follows ([xinv p g U w keys c st] — the node's chain does not occur in it): the
+   store's synced chain is c; the import task is alive ([x_dead] empty); every credit and every spent mark
+   is covered by a block record (so that the record-driven Rollback is [rollback_credits]); with top = the
+   cursor (importing) or the height of c (ready), the credits are exactly those of the first top+1 blocks
+   of c for the wallet's addresses ([importing] of the partial theorem, generalised) and every block record
+   names a block of c.  It holds at EVERY point, not only when the handler is in step: a batch that finds
+   the node's block at its upper height different from the handler's synced block of that height is refused
+   (C07_batch_refused_off_chain), a batch that commits has read blocks of c only (C07_committed_batch_on_chain).
+   A batch answers IOk (committed) or IRetry (nothing changed: not the handler's chain, previous transaction
+   not found, block record of another block at that height, spend of a coin it does not have); never
+   IAbandon (C07_batch_never_abandons). *)
 
 (* (a) + (b): at every point of every such history the invariant holds; whenever the handler has processed
    the node's tip ([in_step]) and the wallet is ready, the WHOLE ledger is exactly the ledger of a wallet
@@ -328,7 +325,7 @@ Print Assumptions C07_import_live.
 
 (* one batch in step: it commits, the cursor advances by B or the wallet is handed over *)
 Theorem C07_batch_in_step : forall p g U w keys B n st k, 0 < B ->
-  xinv p g U w keys n n st -> status_of st w = Some (WImporting k) ->
+  xinv p g U w keys n st -> status_of st w = Some (WImporting k) ->
   let stop := Z.min (k + B) (chain_height n) in
   snd (import_batch repaired p B n st w) = IOk /\
   status_of (fst (import_batch repaired p B n st w)) w =
@@ -338,23 +335,23 @@ Print Assumptions C07_batch_in_step.
 
 (* the steps of the invariant, event by event *)
 Theorem C07_batch_keeps_invariant : forall p g U, (forall b1 b2, In b1 U -> In b2 U -> b_id b1 = b_id b2 -> b1 = b2) ->
-  forall w keys B c n st, ninv g U n -> 0 < B -> xinv p g U w keys c n st ->
-  xinv p g U w keys c n (fst (import_batch repaired p B n st w)).
+  forall w keys B c n st, ninv g U n -> 0 < B -> xinv p g U w keys c st ->
+  xinv p g U w keys c (fst (import_batch repaired p B n st w)).
 Proof. exact batch_inv. Qed.
 Print Assumptions C07_batch_keeps_invariant.
 
 Theorem C07_announcement_keeps_invariant : forall p g U, (forall b1 b2, In b1 U -> In b2 U -> b_id b1 = b_id b2 -> b1 = b2) ->
   forall w keys, (forall sh v, lookupN keys sh = Some v -> v = w) ->
-  forall c n st b st', ninv g U n -> xinv p g U w keys c n st -> In b U -> b <> g ->
+  forall c n st b st', ninv g U n -> xinv p g U w keys c st -> In b U -> b <> g ->
   xprocess repaired p n st b = XOk st' ->
-  exists c', xinv p g U w keys c' n st' /\ incl c' (c ++ n).
+  exists c', xinv p g U w keys c' st' /\ incl c' (c ++ n).
 Proof. exact xprocess_inv. Qed.
 Print Assumptions C07_announcement_keeps_invariant.
 
 Theorem C07_node_block_always_accepted : forall p g U, (forall b1 b2, In b1 U -> In b2 U -> b_id b1 = b_id b2 -> b1 = b2) ->
   forall w keys, (forall sh v, lookupN keys sh = Some v -> v = w) ->
-  forall c n st b n1 n2, ninv g U n -> xinv p g U w keys c n st -> n = n1 ++ b :: n2 -> n1 <> [] ->
-  exists st', xprocess repaired p n st b = XOk st' /\ xinv p g U w keys (n1 ++ [b]) n st'.
+  forall c n st b n1 n2, ninv g U n -> xinv p g U w keys c st -> n = n1 ++ b :: n2 -> n1 <> [] ->
+  exists st', xprocess repaired p n st b = XOk st' /\ xinv p g U w keys (n1 ++ [b]) st'.
 Proof. exact xprocess_on_node. Qed.
 Print Assumptions C07_node_block_always_accepted.
 
@@ -363,27 +360,43 @@ Theorem C07_batch_never_abandons : forall p B n st w,
 Proof. exact batch_never_abandons. Qed.
 Print Assumptions C07_batch_never_abandons.
 
-(* the environment assumption in purely environmental terms: it holds for every history in which the node
-   never connects a block twice, nor a block of the initial chain again ([xwf_fresh], [ev_fresh]) *)
-Theorem C07_fresh_history_ok : forall p g U w pass sh shs B cap n0 h,
-  (forall b1 b2, In b1 U -> In b2 U -> b_id b1 = b_id b2 -> b1 = b2) -> 0 < B ->
-  wf_chain n0 -> from_g g n0 -> incl n0 U ->
-  xwf_fresh p g U w B cap n0 (xrun repaired p B cap n0 [XImportStart w pass (sh :: shs)]) h ->
-  xwf p g U w B cap (xrun repaired p B cap n0 [XImportStart w pass (sh :: shs)]) h.
-Proof. exact xwf_of_fresh_run. Qed.
-Print Assumptions C07_fresh_history_ok.
+(* the repair: a batch that finds the node's block at its upper height different from the handler's synced
+   block of that height (or one of the two missing) commits nothing and is retried — any node state, any
+   store *)
+Theorem C07_batch_refused_off_chain : forall p B n st w k,
+  status_of st w = Some (WImporting k) ->
+  node_on_synced n (x_w st) (Z.min (k + B) (fst (tip (x_w st)))) = false ->
+  import_batch repaired p B n st w = (st, if memN w (x_dead st) then IOk else IRetry).
+Proof. exact batch_refused_off_chain. Qed.
+Print Assumptions C07_batch_refused_off_chain.
 
-(* ------------------------------------------------------------------ without "no bounce" the statement is false *)
+(* ... and, under the invariant, a batch that commits has read blocks of the handler's chain only: up to the
+   batch's upper height the node's chain IS the handler's chain *)
+Theorem C07_committed_batch_on_chain : forall p g U, (forall b1 b2, In b1 U -> In b2 U -> b_id b1 = b_id b2 -> b1 = b2) ->
+  forall w keys B c n st k, ninv g U n -> xinv p g U w keys c st ->
+  status_of st w = Some (WImporting k) ->
+  snd (import_batch repaired p B n st w) = IOk ->
+  let stop := Z.min (k + B) (chain_height c) in
+  stop <= chain_height n /\ upto stop c = upto stop n.
+Proof. exact batch_ok_on_chain. Qed.
+Print Assumptions C07_committed_batch_on_chain.
 
-(* Repaired code, batch size 1000.  Chain g0-1-2-3-4 (block 1 pays the wallet 10); the handler is in step.
-   The node reorganises to 1-2-3'-4' (3' pays the wallet 77): the announcements are queued.  The rescan
-   batch runs now: it reads heights 1..4 of the node's chain — 3' and 4' — commits, and hands the wallet
-   over (4 = the handler's height).  Before the handler is told anything the node goes back: 4' and 3'
-   disconnected, 3, 4 and a new block 5 connected.  The handler then processes every announcement in the
-   order they were queued: 3' and 4' are refused (no longer on the node), 3 is "already synced" (nothing
-   above it is rolled back below height 4), 4 and 5 extend.  The handler is in step with the node, the
-   wallet is ready — and holds the 77 of block 3', which is not on the chain.  Nothing repairs it later:
-   no announcement ever makes the handler roll back below height 4. *)
+(* ------------------------------------------------------------------ the code as found failed here (the bounce) *)
+
+(* Code as found in this respect ([no_tipcheck]: every other repair made), batch size 1000.  Chain g0-1-2-3-4
+   (block 1 pays the wallet 10); the handler is in step.  The node reorganises to 1-2-3'-4' (3' pays the
+   wallet 77): the announcements are queued.  The rescan batch runs now: it reads heights 1..4 of the node's
+   chain — 3' and 4' — commits, and hands the wallet over (4 = the handler's height).  Before the handler is
+   told anything the node goes back: 4' and 3' disconnected, 3, 4 and a new block 5 connected.  The handler
+   then processes every announcement in the order they were queued: 3' and 4' are refused (no longer on the
+   node), 3 is "already synced" (nothing above it is rolled back below height 4), 4 and 5 extend.  The
+   handler is in step with the node, the wallet is ready — and holds the 77 of block 3', which is not on the
+   chain.  Nothing repairs it later: no announcement ever makes the handler roll back below height 4.
+   The history satisfies the environment assumption of the theorems above ([xwf]).  Reproduced on the real
+   code by harness/cmd/c07 (bounce.go). *)
+Definition no_tipcheck : fixes :=
+  {| f_removable := true; f_rollback := true; f_import_retry := true; f_start_reorg := true; f_rollback_order := true;
+     f_import_tipcheck := false; f_removable_debit := true; f_ff_check := true; f_keystore_undo := true |}.
 Definition b3 := {| b_id := 3; b_prev := 2; b_height := 3; b_txs := [cb 3 []] |}.
 Definition b4 := {| b_id := 4; b_prev := 3; b_height := 4; b_txs := [cb 4 []] |}.
 Definition b5 := {| b_id := 5; b_prev := 4; b_height := 5; b_txs := [cb 5 []] |}.
@@ -391,20 +404,15 @@ Definition c3' := {| b_id := 13; b_prev := 2; b_height := 3; b_txs := [cb 13 [pa
 Definition c4' := {| b_id := 14; b_prev := 13; b_height := 4; b_txs := [cb 14 []] |}.
 Definition c5' := {| b_id := 15; b_prev := 14; b_height := 5; b_txs := [cb 15 []] |}.
 Definition U_bounce : list block := old_chain ++ [b5; c3'; c4'; c5'].
-Definition hist_bounce_pre : list xevent :=
-  [XDetach; XDetach; XAttach c3'; XAttach c4'; XBatch 1; XDetach; XDetach].
 Definition hist_bounce : list xevent :=
-  hist_bounce_pre ++ [XAttach b3; XAttach b4; XAttach b5;
-                      XProcess c3'; XProcess c4'; XProcess b3; XProcess b4; XProcess b5; XBatch 1].
+  [XDetach; XDetach; XAttach c3'; XAttach c4'; XBatch 1; XDetach; XDetach;
+   XAttach b3; XAttach b4; XAttach b5;
+   XProcess c3'; XProcess c4'; XProcess b3; XProcess b4; XProcess b5; XBatch 1].
 
 Theorem C07_import_bounce_refuted :
-  let s0 := xrun repaired p0 1000 20000 old_chain [XImportStart 1 7 [1%N]] in
-  let s1 := xrun repaired p0 1000 20000 old_chain (XImportStart 1 7 [1%N] :: hist_bounce_pre) in
-  let s := xrun repaired p0 1000 20000 old_chain (XImportStart 1 7 [1%N] :: hist_bounce) in
-  (* everything but "no bounce" holds along the history: the prefix is well formed, the next event connects
-     block 3 again, which the handler still has as synced *)
-  xwf p0 g0 U_bounce 1 1000 20000 s0 hist_bounce_pre /\
-  wf_chain (xs_node s1 ++ [b3]) /\ matched (x_w (xs_st s1)) b3 = true /\
+  let s := xrun no_tipcheck p0 1000 20000 old_chain (XImportStart 1 7 [1%N] :: hist_bounce) in
+  (* the history is one of those the general theorems quantify over *)
+  xwf p0 g0 U_bounce 1 1000 20000 (xrun repaired p0 1000 20000 old_chain [XImportStart 1 7 [1%N]]) hist_bounce /\
   (* at the end: *)
   wf_chain (xs_node s) /\ in_step g0 s /\ status_of (xs_st s) 1 = Some WReady /\
   r_total (xreport (xs_st s) 1) = 87 /\
@@ -412,17 +420,31 @@ Theorem C07_import_bounce_refuted :
 Proof.
   cbv zeta. split; [apply xwf_b_sound; vm_compute; reflexivity|].
   split; [apply wf_chain_b_sound; vm_compute; reflexivity|].
-  split; [vm_compute; reflexivity|].
-  split; [apply wf_chain_b_sound; vm_compute; reflexivity|].
   vm_compute. repeat split; reflexivity.
 Qed.
 Print Assumptions C07_import_bounce_refuted.
 
+(* the code as found altogether ([as_found]) fails on it in the same way *)
+Example C07_import_bounce_as_found :
+  let s := xrun as_found p0 1000 20000 old_chain (XImportStart 1 7 [1%N] :: hist_bounce) in
+  in_step g0 s /\ status_of (xs_st s) 1 = Some WReady /\ r_total (xreport (xs_st s) 1) = 87.
+Proof. vm_compute. repeat split; reflexivity. Qed.
+
+(* repaired: the batch that finds the node on 3'-4' is refused (the wallet stays importing, nothing is
+   stored); the last batch runs on the handler's chain: ready, in step, the report is the specification *)
+Example C07_bounce_repaired_on_witness :
+  (let s := xrun repaired p0 1000 20000 old_chain (XImportStart 1 7 [1%N] :: removelast hist_bounce) in
+   in_step g0 s /\ status_of (xs_st s) 1 = Some (WImporting 0) /\ credits (x_w (xs_st s)) = []) /\
+  (let s := xrun repaired p0 1000 20000 old_chain (XImportStart 1 7 [1%N] :: hist_bounce) in
+   in_step g0 s /\ status_of (xs_st s) 1 = Some WReady /\
+   xreport (xs_st s) 1 = spec_report p0 (own_w (xs_st s) 1) (xs_node s) 1 /\ r_total (xreport (xs_st s) 1) = 10).
+Proof. vm_compute. repeat split; reflexivity. Qed.
+
 (* ------------------------------------------------------------------ the hypotheses are satisfiable *)
 
-(* batch size 2, the reorganisation of [hist_abandon] between batches: the second batch reads the new
-   branch before the handler is told, meets the spend of a coin it does not have and is retried; the
-   announcement is processed (cursor pulled back to 1); three more batches: ready, in step, correct *)
+(* batch size 2, the reorganisation of [hist_abandon] between batches: the second batch finds the node on the
+   new branch before the handler is told and is refused; the announcement is processed (cursor pulled back
+   to 1); three more batches: ready, in step, correct *)
 Definition U_moving : list block := old_chain ++ [b2'; b3'; b4'; b5'].
 Definition hist_moving : list xevent :=
   [XBatch 1; XDetach; XDetach; XDetach; XAttach b2'; XAttach b3'; XAttach b4'; XAttach b5';
@@ -432,7 +454,6 @@ Example C07_moving_instance :
   (forall b1 b2, In b1 U_moving -> In b2 U_moving -> b_id b1 = b_id b2 -> b1 = b2) /\
   wf_chain old_chain /\ from_g g0 old_chain /\ incl old_chain U_moving /\
   xwf p0 g0 U_moving 1 2 20000 (xrun repaired p0 2 20000 old_chain [XImportStart 1 7 [1%N]]) hist_moving /\
-  xwf_fresh p0 g0 U_moving 1 2 20000 old_chain (xrun repaired p0 2 20000 old_chain [XImportStart 1 7 [1%N]]) hist_moving /\
   let s := xrun repaired p0 2 20000 old_chain (XImportStart 1 7 [1%N] :: hist_moving) in
   in_step g0 s /\ status_of (xs_st s) 1 = Some WReady /\ chain_height (xs_node s) = 5 /\
   r_total (xreport (xs_st s) 1) = 10.
@@ -442,22 +463,20 @@ Proof.
   split; [eexists; reflexivity|].
   split; [apply incl_appl; apply incl_refl|].
   split; [apply xwf_b_sound; vm_compute; reflexivity|].
-  split; [apply xwf_fresh_b_sound; vm_compute; reflexivity|].
   vm_compute. repeat split; reflexivity.
 Qed.
 
-(* batch size 1000: the single batch runs while the node is already on the other branch (3' pays the wallet
-   77) and the handler is not: it commits what it read there and hands the wallet over — the store is
-   "doomed", not yet right for the handler's chain; the announcement of 5' reorganises, and the ledger is
-   that of the node's chain *)
+(* batch size 1000: the first batch runs while the node is already on the other branch (3' pays the wallet
+   77) and the handler is not: it is refused — still importing, nothing stored, not in step; the announcement
+   of 5' reorganises the handler, the next batch commits: the ledger is that of the node's chain *)
 Definition hist_other_branch : list xevent :=
-  [XDetach; XDetach; XAttach c3'; XAttach c4'; XAttach c5'; XBatch 1; XProcess c5'].
+  [XDetach; XDetach; XAttach c3'; XAttach c4'; XAttach c5'; XBatch 1; XProcess c5'; XBatch 1].
 
 Example C07_moving_instance_other_branch :
   xwf p0 g0 U_bounce 1 1000 20000 (xrun repaired p0 1000 20000 old_chain [XImportStart 1 7 [1%N]]) hist_other_branch /\
-  (let s := xrun repaired p0 1000 20000 old_chain (XImportStart 1 7 [1%N] :: removelast hist_other_branch) in
-   status_of (xs_st s) 1 = Some WReady /\ fst (tip (x_w (xs_st s))) = 4 /\ ~ in_step g0 s /\
-   r_total (xreport (xs_st s) 1) = 87) /\
+  (let s := xrun repaired p0 1000 20000 old_chain (XImportStart 1 7 [1%N] :: firstn 6 hist_other_branch) in
+   status_of (xs_st s) 1 = Some (WImporting 0) /\ fst (tip (x_w (xs_st s))) = 4 /\ ~ in_step g0 s /\
+   credits (x_w (xs_st s)) = []) /\
   (let s := xrun repaired p0 1000 20000 old_chain (XImportStart 1 7 [1%N] :: hist_other_branch) in
    in_step g0 s /\ status_of (xs_st s) 1 = Some WReady /\
    xreport (xs_st s) 1 = spec_report p0 (own_w (xs_st s) 1) (xs_node s) 1 /\ r_total (xreport (xs_st s) 1) = 87).
